@@ -1640,4 +1640,62 @@ theorem offset_eq_rank {g : NodeGrid} {n c f : Nat}
   rw [Nat.zero_add] at this
   exact this
 
+/-! ### decidable input conditions -/
+
+theorem interior_of_interiorB {s : Host} {g : Nat} (h : s.interiorB g = true) : s.Interior g := by
+  unfold Host.interiorB at h
+  split at h
+  · rename_i a b hab
+    rw [Bool.and_eq_true] at h
+    obtain ⟨h1, h2⟩ := h
+    have h2' : b.sign = -a.sign := by simpa using h2
+    cases hal : a.left with
+    | false =>
+      have hbl : b.left = true := by
+        cases hb : b.left with
+        | true => rfl
+        | false => rw [hal, hb] at h1; simp at h1
+      exact ⟨a, b, Or.inl hab, hal, hbl, h2'⟩
+    | true =>
+      have hbl : b.left = false := by
+        cases hb : b.left with
+        | false => rfl
+        | true => rw [hal, hb] at h1; simp at h1
+      exact ⟨b, a, Or.inr hab, hbl, hal, by omega⟩
+  · cases h
+
+theorem valid_of_validB {s : Host} (h : s.validB = true) : s.Valid := by
+  unfold Host.validB at h
+  rw [Bool.and_eq_true] at h
+  obtain ⟨hal, hall⟩ := h
+  have key : ∀ i g, i < s.nFr → g < s.nF → ∀ l, s.fc i g = some l →
+      (∀ j, j < s.nFr → j = i ∨ s.fc j g = none) ∧ (∀ g', g' < s.nF → g' = g ∨ s.fc i g' ≠ some l) ∧
+      (s.rem g = true ∨ s.interiorB g = true) := by
+    intro i g hi hg l hfl
+    have := List.all_eq_true.mp (List.all_eq_true.mp hall i (List.mem_range.mpr hi)) g (List.mem_range.mpr hg)
+    rw [hfl] at this
+    simp only [Bool.and_eq_true, List.all_eq_true, List.mem_range, Bool.or_eq_true, beq_iff_eq,
+      Option.isNone_iff_eq_none, bne_iff_ne] at this
+    exact ⟨this.1.1, this.1.2, this.2⟩
+  refine ⟨by simpa using hal, ?_, ?_, ?_⟩
+  · intro i j g hi hj hne hg hs
+    obtain ⟨l, hl⟩ := Option.isSome_iff_exists.mp hs
+    rcases (key i g hi hg l hl).1 j hj with e | e
+    · exact absurd e.symm hne
+    · exact e
+  · intro i g g' l hi hg hg' h1 h2
+    rcases (key i g hi hg l h1).2.1 g' hg' with e | e
+    · exact e.symm
+    · exact absurd h2 e
+  · intro i g hi hg hs hr
+    obtain ⟨l, hl⟩ := Option.isSome_iff_exists.mp hs
+    rcases (key i g hi hg l hl).2.2 with e | e
+    · rw [hr] at e; cases e
+    · exact interior_of_interiorB e
+
+theorem noFrac_of_noFracB {s : Host} (h : s.noFracB = true) : ∀ g, g < s.nF → s.frac g = false := by
+  intro g hg
+  have := List.all_eq_true.mp h g (List.mem_range.mpr hg)
+  simpa using this
+
 end PorepyVerif.C25
